@@ -69,6 +69,20 @@ models.symbolic_comprehension = _symbolic_comprehension
 
 
 # --- assumed contract of concurrent.futures ------------------------------------------------------------------------------
+class SRepeat:
+    """itertools.repeat(value): the same value for every item"""
+
+    def __init__(self, value):
+        self.value = value
+
+
+@models.external("itertools.repeat")
+def _repeat(engine, run, a, k):
+    if len(a) != 1 or k:
+        raise Undecided("itertools.repeat with a count")
+    return SRepeat(a[0])
+
+
 class SExecutor:
     def __init__(self, engine, max_workers):
         self.engine, self.max_workers = engine, max_workers
@@ -79,12 +93,29 @@ class SExecutor:
     def sym_getattr(self, run, attr):
         if attr == "map":
             def do_map(run2, a, k):
-                if len(a) != 2 or k:
-                    raise Undecided("Executor.map with several iterables / options")
-                f, xs = a
-                seq = self.engine.iterate(run2, xs)
-                if isinstance(seq, list):
-                    seq = SSeq(len(seq), lambda i, seq=seq: seq[i], "list")
+                if len(a) < 2 or k:
+                    raise Undecided("Executor.map with options")
+                f = a[0]
+                finite = [x for x in a[1:] if not isinstance(x, SRepeat)]
+                if len(finite) != 1:
+                    raise Undecided("Executor.map with several finite iterables")
+                xs = finite[0]
+                seq0 = self.engine.iterate(run2, xs)
+                if isinstance(seq0, list):
+                    seq0 = SSeq(len(seq0), lambda i, seq0=seq0: seq0[i], "list")
+                if len(a) > 2:
+                    # several iterables, all but one of them itertools.repeat(value): item i is the tuple of arguments (map stops with the shortest)
+                    class _Zip:
+                        length = seq0.length
+
+                        @staticmethod
+                        def at(i):
+                            return tuple(x.value if isinstance(x, SRepeat) else seq0.at(i) for x in a[1:])
+                    seq = _Zip
+                    call = lambda i: self.engine.invoke(run2, f, list(seq.at(i)), {})       # noqa: E731
+                else:
+                    seq = seq0
+                    call = lambda i: self.engine.invoke(run2, f, [seq.at(i)], {})           # noqa: E731
                 run2.trust("ASSUMED contract (concurrent.futures): Executor.map(f, xs) yields f(x) for x in xs in input order, "
                            "evaluated on value-exact (pickled) copies, independent of max_workers and of worker completion order")
                 run2.ghost.setdefault("executor_maps", []).append(dict(f=f, xs=xs, max_workers=self.max_workers))
@@ -93,7 +124,7 @@ class SExecutor:
                 def at(i):
                     key = i.get_id() if z3.is_expr(i) else i
                     if key not in memo:
-                        memo[key] = self.engine.invoke(run2, f, [seq.at(i)], {})
+                        memo[key] = call(i)
                     return memo[key]
                 return SSeq(seq.length, at, "executor.map", "iter")
             return SNative(do_map, "Executor.map")
